@@ -207,10 +207,13 @@ fn modname(req: &Value) -> Value {
 /// C06: for every identifier token (IDENT / U_IDENT) of every file of the workspace: goto_definition, references, highlight_related.
 /// {"files":..,"roots":..}  ->  {"inverse":[{"file":i,"start":s,"end":e,"text":..,"goto":[[f,s,e]..]|null,"refs":[[f,s,e]..]|null,"hl":[[s,e]..]}..]}
 fn inverse(req: &Value) -> Value {
-    let host = build(req);
+    // {"text":..}: a free-standing document that no package owns (AnalysisHost::new_single_file)
+    let loose = !req["files"].is_array();
+    let host = if loose { AnalysisHost::new_single_file(req["text"].as_str().unwrap()).0 } else { build(req) };
     let a = host.snapshot();
     let mut out = Vec::new();
-    for (i, f) in req["files"].as_array().unwrap().iter().enumerate() {
+    let loose_files = vec![json!({"text": req["text"].clone()})];
+    for (i, f) in (if loose { &loose_files } else { req["files"].as_array().unwrap() }).iter().enumerate() {
         let text = f["text"].as_str().unwrap();
         for tok in syntax::lexer::GleamLexer::new(text) {
             if tok.kind != syntax::SyntaxKind::IDENT && tok.kind != syntax::SyntaxKind::U_IDENT {
